@@ -3,6 +3,7 @@ import TornadoModel.C02.Lemmas
 import TornadoModel.C02.Framing
 import TornadoModel.C02.Final
 import TornadoModel.C02.Writes
+import TornadoModel.C02.Rle
 namespace TornadoModel.C02
 open TornadoModel.C02.Spec
 
@@ -177,6 +178,71 @@ example : wire (run { method := .get, v11 := true, conn := .absent } [.setHeader
 -- a 204 with a flushed body: hypotheses of `nobody_wire_is_head` hold
 example : (run { method := .get, v11 := true, conn := .absent } [.setStatus 204, .flush, .write [97]]).conn.head.map (·.1)
     = some 204 := by decide
+
+/-- `_format_chunk` never writes to the stream itself and formats every accepted chunk with `encChunk`,
+    whatever its size -/
+theorem fmtChunk_out (c : CSt) (chunk : Bytes) :
+    (fmtChunk c chunk).1.out = c.out ∧ (fmtChunk c chunk).1.chunking = c.chunking ∧
+    ∀ d, (fmtChunk c chunk).2 = some d → d = encChunk c.chunking chunk := by
+  unfold fmtChunk
+  cases hexp : c.expected with
+  | none => exact ⟨rfl, rfl, fun d hd => by simpa using hd.symm⟩
+  | some r =>
+    simp only []
+    by_cases hneg : r - (chunk.length : Int) < 0
+    · simp [hneg]
+    · simp only [hneg, if_false]
+      refine ⟨trivial, trivial, fun d hd => ?_⟩
+      simpa using hd.symm
+
+theorem fmtChunk_out_eq (c : CSt) (chunk : Bytes) (c1 : CSt) (x : Option Bytes) (h : fmtChunk c chunk = (c1, x)) :
+    c1.out = c.out ∧ c1.chunking = c.chunking ∧ ∀ d, x = some d → d = encChunk c.chunking chunk := by
+  have hk := fmtChunk_out c chunk
+  rw [h] at hk
+  exact hk
+
+/-- **the header block precedes the first chunk, whatever its size**: everything `write_headers` puts on a fresh
+    stream is ONE write that starts with the serialised head and continues with the chunk-coded (or raw) first
+    chunk — there is no chunk size at which chunk bytes could reach the stream before the status line.
+    (The seeded change C02-2 wrote chunks of ≥ 64 KiB straight to the stream from `_format_chunk`, i.e. ahead of
+    the head; the correspondence check compares exactly this write order.) -/
+theorem headers_precede_first_chunk (rq : Req) (c0 : CSt) (code : Nat) (h : HMap) (chunk : Bytes)
+    (h0 : c0.out = []) :
+    (cWriteHeaders rq c0 code h chunk).1.out = [] ∨
+    ∃ hs, (cWriteHeaders rq c0 code h chunk).1.out
+      = [headBytes code hs ++ encChunk (cWriteHeaders rq c0 code h chunk).1.chunking chunk] := by
+  unfold cWriteHeaders
+  simp only
+  split
+  · left; exact h0
+  · split
+    · left; exact h0
+    · split
+      · next hce =>
+        right
+        have : chunk = [] := by cases chunk <;> simp_all
+        subst this
+        exact ⟨getAll (finalHeaders rq c0.disconnect (decideChunking rq code h) code h), by simp [h0, encChunk]⟩
+      · split
+        · next c1 heq =>
+          left
+          have hk := fmtChunk_out_eq _ _ _ _ heq
+          rw [hk.1]; exact h0
+        · next c1 data heq =>
+          right
+          have hk := fmtChunk_out_eq _ _ _ _ heq
+          exact ⟨getAll (finalHeaders rq c0.disconnect (decideChunking rq code h) code h),
+            by simp only [hk.1, h0, List.nil_append, hk.2.1, hk.2.2 data rfl]⟩
+
+/-- transport of large payloads between harness and driver (`runz` / `parsez`) loses nothing -/
+theorem rle_roundtrip (bs : Bytes) : Rle.expand (Rle.compress bs) = bs := Rle.expand_compress bs
+
+/-- a `[rep, pat, n]` descriptor denotes exactly `n` bytes -/
+theorem rep_length (pat : Bytes) (n : Nat) (h : pat ≠ []) : (Rle.cyc pat n).length = n := Rle.cyc_length pat n h
+
+example : Rle.cyc [120, 121, 122] 7 = [120, 121, 122, 120, 121, 122, 120] := by decide
+example : Rle.compress (List.replicate 40 97 ++ [13, 10] ++ List.replicate 33 98)
+    = [.rep [97] 40, .lit [13, 10], .rep [98] 33] := by decide
 
 /-! non-vacuity / sanity on concrete programs (tests, not theorems) -/
 example : (run { method := .get, v11 := false, conn := .keepAlive } [.write [97], .flush, .write [98]]).conn.closed = true := by decide
